@@ -679,6 +679,22 @@ func checkC10(c *Ctx) {
 				})
 			// path-sensitive alternative: no path from the "HasKauriTree is true" edge reaches the use without the ReplicaInfo ok edge
 			if !okKauri {
+				closes := func(fs []Fact) bool {
+					for _, f := range fs {
+						if f.Op == "false" && strings.HasPrefix(f.L, "(*hs/core.RuntimeConfig).HasKauriTree(") {
+							return true
+						}
+						if f.Op == "true" && strings.HasPrefix(f.L, "(*hs/core.RuntimeConfig).ReplicaInfo(") && strings.HasSuffix(f.L, "#1") {
+							return true
+						}
+					}
+					return false
+				}
+				// (the two ways may be the two accepting returns of a private helper that reports the proposer: its
+				// verdict is closed when each of its accepting paths crosses one of the two edges)
+				if openPathTo(fl, s, closes) == "" {
+					continue
+				}
 				w := cfgSearch(fl, nil, pr.Blocks[0], func(in ssa.Instruction) bool { return in == ssa.Instruction(s) }, nil, func(fs []Fact) bool {
 					for _, f := range fs {
 						if f.Op == "false" && strings.HasPrefix(f.L, "(*hs/core.RuntimeConfig).HasKauriTree(") {
